@@ -212,6 +212,7 @@ func checkC13(p *Program, r *Report) {
 		})
 	}
 	r.Floor("R13.1", "Δt-weighted accumulators", nAcc, 2)
+	checkReportedRates(p, r, k, key, sls)
 	r.Rule("R13.4", "balance structure: expanded as symbolic polynomials over SSA values, every term of each reported total's increment (outflow, rainfall volume, evaporation volume) is a term of the accepted-step volume update with the same factor (hence the same units and the same area/sub-step), every other term of the volume update is a direct input × Δt, and spilled water is removed from the volume by the amount added to the outflow")
 	for _, sl := range sls {
 		checkBalanceTerms(p, r, m, k, key, sl, loops)
@@ -1083,4 +1084,111 @@ func usesField(g *ssa.Function, prm, field, depth int) bool {
 		}
 	})
 	return found
+}
+
+// checkReportedRates (R13.7): a total accumulated over the sub-steps of a timestep is reported as a rate by dividing
+// it by the length of that timestep — the value the remaining-time variable of the sub-step loop starts from. A
+// different divisor (a day's seconds for a model run at another timestep) breaks "change in volume = (in − out) × Δt
+// + reported exchange" for every timestep whose length is not that constant.
+func checkReportedRates(p *Program, r *Report, k *ssa.Function, key string, sls []substepLoop) {
+	r.Rule("R13.7", "reported rates are totals over the timestep's own length: where a value written to an output series is a Δt-weighted accumulator of the sub-step loop divided by D, D is the value the loop's remaining-time variable is initialised with (the timestep length the sub-steps add up to)")
+	n := 0
+	for _, sl := range sls {
+		// the timestep length: entry value of the remaining-time phi
+		tphi, _ := sl.sub.X.(*ssa.Phi)
+		if tphi == nil {
+			continue
+		}
+		var tinit []ssa.Value
+		for i, e := range tphi.Edges {
+			if i < len(tphi.Block().Preds) && !sl.loop.Blocks[tphi.Block().Preds[i]] {
+				tinit = append(tinit, origins(e)...)
+			}
+		}
+		isStepLength := func(v ssa.Value) bool {
+			for _, o := range origins(v) {
+				ok := false
+				for _, t := range tinit {
+					if t != nil && o != nil && (o == t || sameValue(o, t)) {
+						ok = true
+					}
+				}
+				if !ok {
+					return false
+				}
+			}
+			return len(tinit) > 0
+		}
+		dtWeb := phiWeb(sl.dt)
+		// accumulator webs
+		accWebs := []map[ssa.Value]bool{}
+		eachInstr(k, func(_ *ssa.BasicBlock, _ int, ins ssa.Instruction) {
+			add, ok := ins.(*ssa.BinOp)
+			if !ok || add.Op != token.ADD || !sl.loop.Blocks[add.Block()] {
+				return
+			}
+			for _, pair := range [][2]ssa.Value{{add.X, add.Y}, {add.Y, add.X}} {
+				w := phiWeb(pair[0])
+				if !w[add] {
+					continue
+				}
+				var fs []ssa.Value
+				mulFactors(pair[1], &fs)
+				for _, f := range fs {
+					if dtWeb[f] {
+						accWebs = append(accWebs, w)
+						return
+					}
+				}
+			}
+		})
+		isAcc := func(v ssa.Value) bool {
+			any := false
+			for _, w := range accWebs {
+				if w[v] {
+					any = true
+				}
+			}
+			for _, o := range origins(v) {
+				if _, isC := o.(*ssa.Const); isC || o == nil {
+					continue
+				}
+				hit := false
+				for _, w := range accWebs {
+					if w[o] {
+						hit = true
+					}
+				}
+				if !hit {
+					return false
+				}
+				any = true
+			}
+			return any
+		}
+		for _, c := range callsIn(k) {
+			nm := callName(c.Common())
+			if nm != "Set" && nm != "Set1" {
+				continue
+			}
+			args := callArgs(c.Common())
+			if len(args) != 2 || sl.loop.Blocks[c.Block()] {
+				continue
+			}
+			for _, o := range origins(args[1]) {
+				q, ok := o.(*ssa.BinOp)
+				if !ok || q.Op != token.QUO || !isAcc(q.X) {
+					continue
+				}
+				n++
+				okey := fmt.Sprintf("%s:reported-rate#%d", key, n)
+				if isStepLength(q.Y) {
+					r.OK("R13.7", fmt.Sprintf("%s: an accumulated total is reported per second of the timestep's own length", key))
+				} else {
+					r.Fail("R13.7", okey, p.Pos(q.Pos()), "a total accumulated over the sub-steps of a timestep is turned into a reported rate by a divisor other than the timestep length the sub-steps add up to: for any other timestep length the change in volume no longer equals (inflow − outflow) × Δt plus the reported rainfall/evaporation exchange")
+				}
+			}
+		}
+	}
+	r.Floor("R13.7", "accumulated totals reported as rates", n, 2)
 }
